@@ -45,6 +45,11 @@ func (narrowImpl) Other() {}
 
 var NarrowV Narrow = narrowImpl{}
 
+const (
+	hiddenC   = 4
+	hiddenStr = "hidden"
+)
+
 type PImpl struct{ N int }
 
 func (p *PImpl) M() int { return p.N }
@@ -114,6 +119,10 @@ func c13Bases() []c13Expr {
 		{name: "const", expr: "C", typ: "int", num: true},
 		{name: "var", expr: "V", typ: "int", num: true},
 		{name: "unexported-var", expr: "v", typ: "int", num: true, priv: true},
+		// unexported constants: compile-time constants, but the generated file of another package cannot name them
+		{name: "unexported-const", expr: "hiddenC", typ: "int", num: true, priv: true},
+		{name: "unexported-const-expr", expr: "Named(hiddenC + 1)", typ: "Q.Named", num: true, priv: true},
+		{name: "unexported-const-string-expr", expr: "hiddenStr + \", world\"", typ: "string", priv: true},
 		{name: "struct-lit", expr: "S{A: 1, B: \"x\"}", typ: "Q.S"},
 		{name: "struct-lit-unkeyed", expr: "Impl{5}", typ: "Q.Impl"},
 		{name: "struct-lit-private-field", expr: "S{A: 1, a: 2}", typ: "Q.S", priv: true},
@@ -459,6 +468,10 @@ func checkC13(c *h.Check) {
 	for _, e := range []struct{ name, expr, typ string }{{"var", "Greeting", "string"}, {"lit-field", "Cfg{N: Base}", "Q.Cfg"}, {"addr", "&Greeting", "*string"}} {
 		add("C13/twin-text/"+e.name, c13Twin(e.expr, e.typ), false, "", false)
 	}
+	// one injector with value expressions written in two packages that both declare the identifiers they mention
+	for order := 0; order < 3; order++ {
+		add(fmt.Sprintf("C13/values-from-two-packages/order=%d", order), c13Mixed(order), false, "", false)
+	}
 	_ = thorough
 	results := c.JudgeAll(cases)
 	acc, rej := 0, 0
@@ -520,6 +533,44 @@ func verifEq(a, b interface{}) string {
 func VerifDrive() {
 	vt.Case("{{CASE}}")
 	vt.Note("eq " + verifEq(InitA(), liba.Expected) + verifEq(InitB(), libb.Expected) + verifEq(InitA(), liba.Expected))
+}
+`
+	return files
+}
+
+// c13Mixed: package liba declares Default and a set holding wire.Value(Default); the injector's package declares its
+// own Default and lists a value expression of its own next to liba's set. Each expression keeps the meaning it has
+// where it was written.
+func c13Mixed(order int) map[string]string {
+	files := map[string]string{}
+	files["liba/lib.go"] = "package liba\n\nimport \"github.com/google/wire\"\n\ntype Msg string\n\nvar Default Msg = \"greeting of liba\"\n\nvar Set = wire.NewSet(wire.Value(Default))\n"
+	items := []string{"NewPair", "liba.Set", "wire.Value(Port(Base + 80))"}
+	switch order {
+	case 1:
+		items = []string{"wire.Value(Port(Base + 80))", "liba.Set", "NewPair"}
+	case 2:
+		items = []string{"liba.Set", "NewPair", "wire.Value(Port(Base + 80))"}
+	}
+	files["home.go"] = "package p\n\nimport \"{{ROOT}}/liba\"\n\ntype Port int\n\ntype Pair struct {\n\tM liba.Msg\n\tP Port\n}\n\nvar Default liba.Msg = \"greeting of the injector's package\"\n\nvar Base = 8000\n\nfunc NewPair(m liba.Msg, p Port) Pair { return Pair{m, p} }\n"
+	files["wire.go"] = "//go:build wireinject\n// +build wireinject\n\npackage p\n\nimport (\n\t\"github.com/google/wire\"\n\t\"{{ROOT}}/liba\"\n)\n\nfunc InitV() Pair {\n\tpanic(wire.Build(" + strings.Join(items, ", ") + "))\n}\n"
+	files["driver.go"] = `package p
+
+import (
+	"example.com/m/vt"
+	"{{ROOT}}/liba"
+)
+
+func b2s(b bool) string {
+	if b {
+		return "1"
+	}
+	return "0"
+}
+
+func VerifDrive() {
+	vt.Case("{{CASE}}")
+	a, b := InitV(), InitV()
+	vt.Note("eq " + b2s(a.M == liba.Default) + b2s(a.P == Port(Base+80)) + b2s(a == b))
 }
 `
 	return files
